@@ -181,6 +181,8 @@ fn run_case(case: &Value) -> (Value, Option<Ctx>) {
 
     // optional: make descriptor 0 free (after the root has been opened) so that the library's
     // next open gets descriptor number 0
+    // optional: another file mode creation mask for this case (restored by the next case)
+    unsafe { libc::umask(case.get("umask").and_then(|v| v.as_u64()).unwrap_or(0o022) as libc::mode_t) };
     let close0 = case.get("close0").and_then(|v| v.as_bool()).unwrap_or(false);
     let mut saved0: i32 = -1;
     let mut ctx = Ctx { root: None, root_raw: -1, kept: Vec::new(), procfs: None };
